@@ -15,7 +15,10 @@
 
 use futures_core::future::FusedFuture;
 use futures_intrusive::buffer::ArrayBuf;
-use futures_intrusive::channel::{ChannelSendError, GenericChannel};
+use futures_intrusive::channel::{
+    ChannelSendError, GenericChannel, GenericOneshotBroadcastChannel, GenericOneshotChannel, GenericStateBroadcastChannel,
+    StateId,
+};
 use futures_intrusive::sync::{GenericManualResetEvent, GenericMutex, GenericSemaphore};
 use serde_json::{json, Value};
 use std::collections::HashMap;
@@ -453,6 +456,127 @@ macro_rules! prog_mpmc_impl {
 prog_mpmc_impl!(prog_mpmc1, Chan);
 prog_mpmc_impl!(prog_mpmc0, Chan0);
 
+
+macro_rules! prog_oneshot_impl {
+    ($name:ident, $ty:ty) => {
+        fn $name(consts: &Value) {
+            let k = consts["K"].as_u64().unwrap_or(3) as usize;
+            let ch: &'static $ty = Box::leak(Box::new(<$ty>::new()));
+            let mut hs = Vec::new();
+            for t in 1..=k {
+                hs.push(shuttle::thread::spawn(move || {
+                    let (fut, _) = call(json!({"op": "create", "r": t}), || ch.receive());
+                    let mut fut = Box::pin(fut);
+                    loop {
+                        let v = variant();
+                        let w = mk_waker(json!([t, v]));
+                        let mut cx = Context::from_waker(&w);
+                        let (r, i) = call(json!({"op": "poll", "r": t, "w": v}), || fut.as_mut().poll(&mut cx));
+                        match r {
+                            Poll::Ready(Some(x)) => {
+                                set_res(i, json!({"res": "some", "v": x}));
+                                break;
+                            }
+                            Poll::Ready(None) => {
+                                set_res(i, json!({"res": "none", "v": 0}));
+                                break;
+                            }
+                            Poll::Pending => {
+                                set_res(i, json!({"res": "pending", "v": 0}));
+                                if choice(6) == 0 {
+                                    break;
+                                }
+                                shuttle::thread::park();
+                            }
+                        }
+                    }
+                    call(json!({"op": "drop", "r": t}), move || drop(fut));
+                }));
+            }
+            hs.push(shuttle::thread::spawn(move || {
+                for v in 1..=2u32 {
+                    if choice(4) == 0 {
+                        let (st, i) = call(json!({"op": "close"}), || ch.close());
+                        set_res(i, json!({"res": if st.is_newly_closed() { "newly" } else { "already" }}));
+                    }
+                    let (r, i) = call(json!({"op": "send", "v": v}), || ch.send(v));
+                    match r {
+                        Ok(()) => set_res(i, json!({"res": "ok", "rv": 0})),
+                        Err(ChannelSendError(x)) => set_res(i, json!({"res": "err", "rv": x})),
+                    }
+                }
+            }));
+            for h in hs {
+                h.join().unwrap();
+            }
+        }
+    };
+}
+prog_oneshot_impl!(prog_oneshot, GenericOneshotChannel<SLock, u32>);
+prog_oneshot_impl!(prog_oneshot_bc, GenericOneshotBroadcastChannel<SLock, u32>);
+
+fn prog_state(consts: &Value) {
+    let k = consts["K"].as_u64().unwrap_or(3) as usize;
+    let n = consts["Publications"].as_u64().unwrap_or(3) as u32;
+    let ch: &'static GenericStateBroadcastChannel<SLock, u32> = Box::leak(Box::new(GenericStateBroadcastChannel::new()));
+    let mut hs = Vec::new();
+    for t in 1..=k {
+        hs.push(shuttle::thread::spawn(move || {
+            let mut id = StateId::new();
+            loop {
+                let idn = id.verif_value();
+                let (fut, _) = call(json!({"op": "create", "r": t, "id": idn}), || ch.receive(id));
+                let mut fut = Box::pin(fut);
+                let mut end = false;
+                loop {
+                    let v = variant();
+                    let w = mk_waker(json!([t, v]));
+                    let mut cx = Context::from_waker(&w);
+                    let (r, i) = call(json!({"op": "poll", "r": t, "w": v}), || fut.as_mut().poll(&mut cx));
+                    match r {
+                        Poll::Ready(Some((sid, x))) => {
+                            set_res(i, json!({"res": "some", "sid": sid.verif_value(), "v": x}));
+                            id = sid;
+                            break;
+                        }
+                        Poll::Ready(None) => {
+                            set_res(i, json!({"res": "none", "sid": 0, "v": 0}));
+                            end = true;
+                            break;
+                        }
+                        Poll::Pending => {
+                            set_res(i, json!({"res": "pending", "sid": 0, "v": 0}));
+                            if choice(8) == 0 {
+                                break; // abandon and start over with the same id
+                            }
+                            shuttle::thread::park();
+                        }
+                    }
+                }
+                call(json!({"op": "drop", "r": t}), move || drop(fut));
+                if end {
+                    break;
+                }
+            }
+        }));
+    }
+    hs.push(shuttle::thread::spawn(move || {
+        for v in 1..=n {
+            let (r, i) = call(json!({"op": "send", "v": v}), || ch.send(v));
+            match r {
+                Ok(()) => set_res(i, json!({"res": "ok", "rv": 0})),
+                Err(ChannelSendError(x)) => set_res(i, json!({"res": "err", "rv": x})),
+            }
+            shuttle::thread::yield_now();
+        }
+        let (st, i) = call(json!({"op": "close"}), || ch.close());
+        set_res(i, json!({"res": if st.is_newly_closed() { "newly" } else { "already" }}));
+    }));
+    for h in hs {
+        h.join().unwrap();
+    }
+}
+
 // --------------------------------------------------------------------- main
 
 fn arg<'a>(args: &'a [String], name: &str) -> Option<&'a str> {
@@ -482,6 +606,9 @@ fn main() {
             ("event", _) => prog_event(&c2),
             ("mpmc", Some(0)) => prog_mpmc0(&c2),
             ("mpmc", _) => prog_mpmc1(&c2),
+            ("oneshot", _) if c2["Broadcast"].as_bool() == Some(true) => prog_oneshot_bc(&c2),
+            ("oneshot", _) => prog_oneshot(&c2),
+            ("state", _) => prog_state(&c2),
             _ => panic!("unknown primitive"),
         };
         let res = std::panic::catch_unwind(std::panic::AssertUnwindSafe(|| {
